@@ -376,16 +376,35 @@ def ecdsa_sign(c, d, digest, k):
 
 
 # ------------------------------------------------------------------------------------------ openssl CLI
-def openssl(args, workdir, files=None, timeout=30):
-    for name, data in (files or {}).items():
-        with open(os.path.join(workdir, name), "wb") as f:
-            f.write(data)
-    p = subprocess.run(["openssl"] + args, cwd=workdir, stdout=subprocess.PIPE, stderr=subprocess.PIPE, timeout=timeout)
-    return p.returncode, p.stdout, p.stderr
+TOOL = {"calls": 0, "unavailable": 0, "errors": []}        # availability of the openssl tool (never a property verdict)
+_DECODE_VERDICT = ("bad decrypt", "Error decrypting", "Error reading key", "Could not read", "unable to load", "asn1 encoding",
+                   "ASN1", "wrong tag", "header too long", "maybe wrong password")
+
+
+def openssl(args, workdir, files=None, timeout=60):
+    """run the tool on files under workdir -> (returncode | None on a tool-level failure, stdout, stderr)"""
+    try:
+        os.makedirs(workdir, exist_ok=True)
+        for name, data in (files or {}).items():
+            with open(os.path.join(workdir, name), "wb") as f:
+                f.write(data)
+        p = subprocess.run(["openssl"] + args, cwd=workdir, stdin=subprocess.DEVNULL, stdout=subprocess.PIPE, stderr=subprocess.PIPE,
+                           timeout=timeout)
+        return p.returncode, p.stdout, p.stderr
+    except (subprocess.TimeoutExpired, OSError) as ex:
+        return None, b"", repr(ex).encode()
+
+
+def _unavailable(what, err):
+    TOOL["unavailable"] += 1
+    if len(TOOL["errors"]) < 5:
+        TOOL["errors"].append(what + ": " + err.decode("utf-8", "replace")[-200:])
 
 
 def openssl_verify(workdir, key, msg, sig_der_or_rsa, hname, pss=False, prehashed=False):
-    """True/False according to the openssl tool (ECDSA signatures must be given in DER)."""
+    """Verdict of the openssl tool: True (verified) / False (explicit verification failure) / None (no verdict: the tool
+    failed for a reason of its own -- retried once, then counted as unavailable, never as a rejection).
+    ECDSA signatures must be given in DER."""
     files = {"o_pub.pem": pem("PUBLIC KEY", spki_of(key)), "o_sig.bin": sig_der_or_rsa, "o_msg.bin": msg}
     if prehashed:
         args = ["pkeyutl", "-verify", "-pubin", "-inkey", "o_pub.pem", "-in", "o_msg.bin", "-sigfile", "o_sig.bin"]
@@ -398,36 +417,64 @@ def openssl_verify(workdir, key, msg, sig_der_or_rsa, hname, pss=False, prehashe
         if pss:
             args += ["-sigopt", "rsa_padding_mode:pss", "-sigopt", "rsa_pss_saltlen:digest"]
         args += ["o_msg.bin"]
-    rc, out, err = openssl(args, workdir, files)
-    txt = (out + err).decode("utf-8", "replace")
-    if "Verified OK" in txt or "Signature Verified Successfully" in txt:
-        return True
-    if "Verification failure" in txt or "Signature Verification Failure" in txt or "Verification Failure" in txt:
-        return False
-    # malformed signature etc.: openssl reports an error -> does not verify
-    return False
+    TOOL["calls"] += 1
+    err = b""
+    for attempt in (0, 1):
+        rc, out, err = openssl(args, workdir, files)
+        txt = (out + err).decode("utf-8", "replace")
+        if rc == 0 and ("Verified OK" in txt or "Signature Verified Successfully" in txt):
+            return True
+        if rc is not None and ("Verification failure" in txt or "Verification Failure" in txt):
+            return False
+    _unavailable("verify", err)
+    return None
 
 
 def openssl_private_numbers(workdir, blob, is_pem, password):
-    """decode a (possibly encrypted) private key file with the openssl tool -> numbers via parse_pkcs8"""
+    """decode a (possibly encrypted) private key file with the openssl tool -> numbers via parse_pkcs8;
+    "undecodable" when the tool says the file cannot be read/decrypted; None when the tool itself failed (unavailable)"""
     args = ["pkcs8", "-inform", "PEM" if is_pem else "DER", "-in", "o_key.bin", "-topk8", "-nocrypt", "-outform", "DER",
             "-out", "o_key.der", "-passin", "pass:" + (password or "")]
-    rc, out, err = openssl(args, workdir, {"o_key.bin": blob})
-    if rc != 0:
-        return None
-    der = open(os.path.join(workdir, "o_key.der"), "rb").read()
-    return parse_pkcs8(der)
+    TOOL["calls"] += 1
+    err = b""
+    for attempt in (0, 1):
+        try:
+            os.remove(os.path.join(workdir, "o_key.der"))
+        except OSError:
+            pass
+        rc, out, err = openssl(args, workdir, {"o_key.bin": blob})
+        if rc == 0:
+            try:
+                return parse_pkcs8(open(os.path.join(workdir, "o_key.der"), "rb").read())
+            except OSError as ex:
+                err = repr(ex).encode()
+                continue
+        if rc is not None and any(m in (out + err).decode("utf-8", "replace") for m in _DECODE_VERDICT):
+            return "undecodable"
+    _unavailable("pkcs8", err)
+    return None
 
 
 def openssl_sign(workdir, private_pem, msg, hname, pss=False, mgf1_hname=None):
-    """sign with the openssl tool (private key given as unencrypted PEM) -> signature bytes or None"""
+    """sign with the openssl tool (private key given as unencrypted PEM) -> signature bytes, or None (tool unavailable)"""
     args = ["dgst", "-" + hname, "-sign", "o_prv.pem", "-out", "o_sig.out"]
     if pss:
         args += ["-sigopt", "rsa_padding_mode:pss", "-sigopt", "rsa_pss_saltlen:digest"]
         if mgf1_hname:
             args += ["-sigopt", "rsa_mgf1_md:" + mgf1_hname]
     args += ["o_msg.bin"]
-    rc, out, err = openssl(args, workdir, {"o_prv.pem": private_pem, "o_msg.bin": msg})
-    if rc != 0:
-        return None
-    return open(os.path.join(workdir, "o_sig.out"), "rb").read()
+    TOOL["calls"] += 1
+    err = b""
+    for attempt in (0, 1):
+        try:
+            os.remove(os.path.join(workdir, "o_sig.out"))
+        except OSError:
+            pass
+        rc, out, err = openssl(args, workdir, {"o_prv.pem": private_pem, "o_msg.bin": msg})
+        if rc == 0:
+            try:
+                return open(os.path.join(workdir, "o_sig.out"), "rb").read()
+            except OSError as ex:
+                err = repr(ex).encode()
+    _unavailable("sign", err)
+    return None
